@@ -352,6 +352,14 @@ fn plan(property: &str, tier: &str) -> Vec<(&'static str, &'static str, usize)> 
                 ]
             }
         }
+        // change records: every single-file fault followed by a rollback
+        "C17" => {
+            if quick {
+                vec![("bytes", "rb_raw+k2+faults", 3), ("pco", "rb_dense+k2+faults", 3)]
+            } else {
+                vec![("bytes", "rb_raw+k2+c4+faults_all", 5), ("pco", "rb_dense+k2+c4+faults_all", 4)]
+            }
+        }
         "C08" | "C20" => {
             if quick {
                 vec![
